@@ -32,12 +32,18 @@ def dbname(platform):
 
 
 def gen(rng, n_tus=None, n_platforms=None, outside=False, missing=0.0, toggles=True, subdir=True,
-        forced=True, computed=True, big=False, findable=False, deep=0, casepair=False):
+        forced=True, computed=True, big=False, findable=False, deep=0, casepair=False, reguard=False, dirdecoy=False, outside_tu=False):
     """deep=N: the first translation unit also includes a chain of N headers nested N levels deep (each level holds
     code and a macro test; the innermost one defines a macro the translation unit tests afterwards and includes
     ordinary -- possibly missing -- headers).  gcc's nesting limit is 200.
     casepair: two different headers whose names differ only in letter case sit beside the first translation unit,
-    which includes both."""
+    which includes both.
+    reguard: a guarded header is included, its guard macro is #undef'ed (and a mode macro defined), and it is included
+    again: the body must be read a second time under the new macro state.
+    outside_tu: the last translation unit lives outside the analysis root (a generated source) and includes in-root
+    headers.
+    dirdecoy: a *directory* named like a header sits in a search directory that has no such header file (a compiler
+    skips it and keeps searching)."""
     dirs = ["src"] + (["src/sub"] if subdir and rng.random() < 0.7 else []) + INC_DIRS
     if outside:
         dirs.append("@out/ext")
@@ -111,6 +117,8 @@ def gen(rng, n_tus=None, n_platforms=None, outside=False, missing=0.0, toggles=T
     tus = []
     for t in range(n_tus):
         d = "src/sub" if ("src/sub" in dirs and rng.random() < 0.35) else "src"
+        if outside_tu and t == n_tus - 1:
+            d = "@out/gen"
         rel = f"{d}/t{t}" + rng.choice([".c", ".c", ".cpp", ".cc", ".cu"])
         body = [["code"]]
         for _ in range(rng.randint(1, 4 if not big else 10)):
@@ -148,6 +156,13 @@ def gen(rng, n_tus=None, n_platforms=None, outside=False, missing=0.0, toggles=T
             body += [["include", "q", first], ["code"], ["include", "q", second],
                      ["chain", [["ifdef", "CASE_UP", [["code"]]], ["else", None, [["code"]]]]],
                      ["chain", [["ifdef", "CASE_LO", [["code"]]], ["else", None, [["code"]]]]]]
+        if reguard and t == 0:
+            files[f"{d}/tab.h"] = [["code"], ["chain", [["ifndef", "TAB_G", [
+                ["define", "TAB_G", None], ["code"],
+                ["chain", [["ifdef", "TAB_MODE", [["code"], ["define", "TAB_SECOND", None]]], ["else", None, [["code"]]]]]]]]], ["code"]]
+            body += [["include", "q", "tab.h"], ["code"], ["undef", "TAB_G"], ["define", "TAB_MODE", "1"], ["include", "q", "tab.h"],
+                     ["include", "q", "tab.h"],
+                     ["chain", [["ifdef", "TAB_SECOND", [["code"]]], ["else", None, [["code"]]]]]]
         if deep and t == 0:
             for k in range(deep):
                 hb = [["code"]] + detectors(1)
@@ -184,7 +199,13 @@ def gen(rng, n_tus=None, n_platforms=None, outside=False, missing=0.0, toggles=T
     # computed includes inside headers: replace ["include","m",'"x.h"'] by define/include/undef triple
     for rel, body in list(files.items()):
         files[rel] = _expand_computed(body)
-    return {"files": files, "tus": tus}
+    case = {"files": files, "tus": tus}
+    if dirdecoy:
+        free = [(d_, nm) for nm in names for d_ in ["src"] + INC_DIRS if f"{d_}/{nm}" not in files]
+        if free:
+            d_, nm = rng.choice(free)
+            case["dirs"] = [f"{d_}/{nm}"]
+    return case
 
 
 def _expand_computed(body):
@@ -223,7 +244,7 @@ def materialize(case, base, alias=None):
         os.makedirs(os.path.dirname(p), exist_ok=True)
         with open(p, "w") as f:
             f.write(r.text)
-    for d in INC_DIRS + ["src"]:
+    for d in INC_DIRS + ["src"] + list(case.get("dirs", [])):
         os.makedirs(os.path.join(root, d), exist_ok=True)
     return root, rendered
 
@@ -304,6 +325,21 @@ def cbi_configuration(case, base, via_parser=True):
         if entry is None:
             entry = {"file": path, "defines": defines, "include_paths": [d for _, d in search], "include_files": incs}
         conf.setdefault(tu["platform"], []).append(entry)
+    return conf
+
+
+def cbi_configuration_db(case, base):
+    """The configuration as the front ends obtain it: one compilation database per platform is written (entries in the
+    three equivalent spellings of props/c08.write_dbs) and loaded with the real config.load_database."""
+    from cbimon.props import c08
+    from codebasin import config
+    c08.write_dbs(case, base)
+    root = os.path.realpath(paths(base)[0])
+    conf = {}
+    for tu in case["tus"]:
+        p = tu["platform"]
+        if p not in conf:
+            conf[p] = [e for e in config.load_database(os.path.join(base, "dbs", dbname(p)), root)]
     return conf
 
 
